@@ -701,10 +701,16 @@ class FlowModel:
         weights_file : str
             Path to to file to save weights. Recommended file type is ``.pt``.
         """
+        # Write to a temporary file first so that an interrupted save never
+        # leaves a partially written weights file at the final path.
+        temp_weights_file = weights_file + ".temp"
+        with open(temp_weights_file, "wb") as f:
+            torch.save(self.model.state_dict(), f)
+
         if os.path.exists(weights_file):
             shutil.move(weights_file, weights_file + ".old")
 
-        torch.save(self.model.state_dict(), weights_file)
+        os.replace(temp_weights_file, weights_file)
         self.weights_file = weights_file
 
     def load_weights(self, weights_file):
